@@ -73,6 +73,7 @@ func (s *Server) Serve(l net.Listener) error {
 			c:            c,
 			ReadTimeout:  s.ReadTimeout,
 			WriteTimeout: s.WriteTimeout,
+			done:         make(chan struct{}),
 		}
 		s.mu.Lock()
 		if s.conns == nil {
@@ -132,6 +133,10 @@ type conn struct {
 	c            net.Conn
 	ReadTimeout  time.Duration
 	WriteTimeout time.Duration
+
+	// done is closed when the connection is closed.
+	done      chan struct{}
+	closeOnce sync.Once
 }
 
 func (c *conn) Read(b []byte) (int, error) {
@@ -149,7 +154,14 @@ func (c *conn) Write(b []byte) (int, error) {
 }
 
 func (c *conn) Close() error {
+	c.closeOnce.Do(func() { close(c.done) })
 	return c.c.Close()
+}
+
+// Done returns a channel which is closed when the connection is
+// closed by the handler or by the server.
+func (c *conn) Done() <-chan struct{} {
+	return c.done
 }
 
 func (c *conn) LocalAddr() net.Addr {
